@@ -38,7 +38,8 @@ MANIFEST = dict(
          'violation (the per-rendering sort key stored on the shared dtml-in tag was found this way and repaired); (2) publication: cook '
          'does all its work, parsing included, in one locked region, stores the compiled blocks before the cooked flag; String.__call__ '
          'tests the flag before its single read of the blocks and creates its namespace per call; the stateful tag matcher is created per '
-         'parse; (3) symbolic frame of String.__call__: no write to the template or its defaults outside the locked compile step.',
+         'parse; (3) symbolic frame of String.__call__: no write to the template or its defaults outside the locked compile step.'
+         ' The call-side half of the publication protocol (flag tested or template cooked before rendering, published blocks rendered once, namespace created by this call) is decided over the symbolic execution of String.__call__, not by text matching.',
     note='Level other: sufficient-condition argument; schedules themselves are only sampled (bounded stand-in). Trusted: pyvc, z3, CPython ast.',
     technique='contract-based deductive verification (frame obligations by pyvc symbolic execution + AST write-site and lock-region obligations)',
     design_ref='DESIGN.md 4 C18',
